@@ -2761,6 +2761,12 @@ func (r *Runtime) getIterator(obj Value, method func(FunctionCall) Value) *itera
 			next = call
 		}
 	}
+	if next == nil {
+		// not an error until the first step (IteratorStep, yield*)
+		next = func(FunctionCall) Value {
+			panic(r.NewTypeError("iterator.next is missing or not a function"))
+		}
+	}
 
 	return &iteratorRecord{
 		iterator: iter,
